@@ -3,6 +3,7 @@ package props
 import (
 	"math/big"
 	"strconv"
+	"strings"
 	"testing"
 
 	"github.com/db47h/decimal"
@@ -387,6 +388,9 @@ func c02Run(c C02Case, o *h.Obs) (got h.Snap, exact model.X, ok bool, fail *h.Fa
 
 func checkC02(c C02Case, o *h.Obs) *h.Fail {
 	o.Label(c.Op)
+	if c.Op == "arith" && c.A != nil && strings.HasPrefix(c.A.Op, "grid:") {
+		return checkC01(*c.A, o) // replay of an enumerated case
+	}
 	got, exact, ok, fail := c02Run(c, o)
 	if fail != nil {
 		return fail
@@ -441,4 +445,8 @@ func TestC02Grid(t *testing.T) {
 		n++
 	}
 	h.AddExtra("C02", "huge_gap_cases_enumerated", n)
+	// the million-digit carry cases check value and accuracy together (see c01CarryCases)
+	if f := c01CarryCases(); f != nil {
+		h.ReportGridFail(t, "C02", f, []byte(`{"op":"arith","a":{"op":"grid:carry-cases"}}`))
+	}
 }
